@@ -259,6 +259,8 @@ class Gen:
             weights.update(units=8, setreg=8, action=8, print=3)
         elif prof == 'print':
             weights.update(print=10, printf=8, action=2, setreg=4)
+        elif prof == 'tod':
+            weights.update(time_at=7, action=7, wait=3, loop=3 if depth > 0 else 0, setreg=4)
         if self.nest > 0 or scope.in_routine:
             weights.update(units=0, time_at=0, macro=0)
             if self.time_is_pattern:
@@ -501,7 +503,25 @@ class Gen:
             texts.append(self.pick(['9:00', '*:45', '1*:10', '20:2*']))
         self.time_is_pattern = True
         self.regs['time'] = 'A'
-        return {'op': 'time_at', 'texts': texts}
+        out = []
+        pat_macros = getattr(self, 'pat_macros', None)
+        if pat_macros is None:
+            pat_macros = self.pat_macros = {}
+        if self.chance(0.45):
+            # a pattern that has a name: used first, alone, after other alternatives, again later - it stays what it is
+            if self.loop_depth == 0 and (not pat_macros or self.chance(0.3)):
+                name = 'T%d' % len(pat_macros)
+                pat_macros[name] = self.pick(['6:30', '1*:00', '*:20', '22:4*'])
+                self.macros[name] = ('pat', 'E', None)
+                out.append({'op': 'defmacro', 'name': name, 'v': {'k': 'pat', 'ps': [A.pattern_json(pat_macros[name])]}, 'text': pat_macros[name]})
+            if pat_macros:
+                name = self.pick(sorted(pat_macros))
+                texts.insert(self.rng.randint(0, len(texts)) if self.chance(0.7) else 0, name)
+                if self.chance(0.3):
+                    texts = [name]
+        resolved = [pat_macros.get(t, t) for t in texts]
+        out.append({'op': 'time_at', 'texts': texts, 'resolved': resolved})
+        return out
 
     def stmt_get(self, scope):
         plains = [d['name'] for d in self.pop if d['kind'] == 'plain']
@@ -864,6 +884,35 @@ class Gen:
         self.budget -= 8
         return out
 
+    # ------------------------------------------------------------ a loop whose bounds mention its own loop variable
+    def self_bound_loop(self, scope):
+        """`assign v 4  repeat with v from 1 to v ...`: the bounds are values, taken before the loop gives the variable
+        its first value.  The variable is set again afterwards (what it holds after its loop is not documented)."""
+        self.fresh += 1
+        name = 'lim%d' % self.fresh
+        start = self.rng.randint(2, 5)
+        out = [{'op': 'assign', 'name': name, 'e': A.num(str(start))}]
+        var = self.declare(scope, name, 'num', 'E')
+        var.frozen = True
+        self.name_types[name] = 'num'
+        self.loop_names.append(name)
+        body = [{'op': 'print', 'nl': False, 'e': ('var', name)}]
+        form = self.pick(['range-to', 'range-from', 'interp', 'range-both'])
+        if form == 'range-to':
+            loop = {'op': 'loop', 'form': 'range', 'a': A.num('1'), 'b': ('var', name), 'var': name}
+        elif form == 'range-from':
+            loop = {'op': 'loop', 'form': 'range', 'a': ('var', name), 'b': A.num(str(start + 2)), 'var': name}
+        elif form == 'range-both':
+            loop = {'op': 'loop', 'form': 'range', 'a': ('bin', '-', ('var', name), A.num('1')), 'b': ('bin', '+', ('var', name), A.num('1')), 'var': name}
+        else:
+            loop = {'op': 'loop', 'form': 'interp', 'n': A.num(str(self.rng.randint(2, 3))), 'a': A.num('0'),
+                    'b': ('bin', '+', ('var', name), A.num('10')), 'var': name}
+        loop['body'] = body
+        out.append(loop)
+        out.append({'op': 'assign', 'name': name, 'e': A.num('0')})
+        self.budget -= 3
+        return out
+
     # ------------------------------------------------------------ whole program
     def program(self):
         scope = Scope()
@@ -880,6 +929,8 @@ class Gen:
             if finder_at == 0:
                 stmts += self.finder_pair(scope)
             finder_at -= 1
+            if self.profile in ('loops', 'general') and self.chance(0.04):
+                stmts += self.self_bound_loop(scope)
             if made < nroutines and self.chance(0.4):
                 stmts.append(self.gen_routine(made))
                 made += 1
